@@ -123,3 +123,18 @@ def make_sites(m, frac, labels=None, species='Li', rot=None):
     sp = [species] * len(frac) if isinstance(species, str) else list(species)
     return Structure(lattice=make_lattice(m, rot), species=sp, coords=np.array(frac, dtype=float),
                      labels=list(labels) if labels is not None else None)
+
+
+def hopping_positions(r, T, na, site_frac, p_move=0.15, sigma=0.01):
+    """positions of na atoms hopping between the given sites (at most one atom per site)"""
+    ns = len(site_frac)
+    cur = list(range(na))
+    pos = np.zeros((T, na, 3))
+    for t in range(T):
+        for a in range(na):
+            if r.random() < p_move:
+                free = [k for k in range(ns) if k not in cur]
+                if free:
+                    cur[a] = int(free[int(r.integers(0, len(free)))])
+            pos[t, a] = np.array(site_frac[cur[a]]) + r.normal(0, sigma, 3)
+    return np.mod(pos, 1)
